@@ -287,7 +287,7 @@ pub fn run(ctx: &Ctx) -> Outcome {
                             rep.case(|| (fe.run)(&key, &iv, &data[..l], &[p(l, k)], &pre).map(|_| ()));
                         }
                         if fe.multi && l > 0 && l <= 4 * bs {
-                            let pieces: Vec<P> = (0..l / fe.gran).map(|_| P { len: fe.gran, kind: fe.kinds[0], single: fe.singles }).collect();
+                            let pieces: Vec<P> = (0..l / fe.gran).map(|_| P { len: fe.gran, kind: fe.kinds[0], single: fe.singles, closure: 0 }).collect();
                             rep.case(|| (fe.run)(&key, &iv, &data[..l], &pieces, &pre).map(|_| ()));
                         }
                     }
